@@ -368,10 +368,10 @@ func c14Messages(c *Ctx) {
 			case d == "template":
 				c.Check(len(atoms) == 1 && atoms[0] == "len(fmtArgs) == 0", "R14.4", gm.String(), "template-verbatim", r.Pos(), "without arguments the template is the message verbatim (guards %v)", atoms)
 			case d == "Sprintf(template, fmtArgs)":
-				c.Check(containsS(atoms, "len(fmtArgs) != 0"), "R14.4", gm.String(), "sprintf", r.Pos(), "with arguments and a template the message is fmt.Sprintf(template, args...)")
+				c.Check(containsS(atoms, "len(fmtArgs) > 0"), "R14.4", gm.String(), "sprintf", r.Pos(), "with arguments and a template the message is fmt.Sprintf(template, args...)")
 			case d == "Sprint(fmtArgs)" || strings.HasSuffix(d, ".(string)?#0"):
 				// print-style result; reachable for f-style callers when the template is empty at run time
-				if containsS(atoms, `template == ""`) && containsS(atoms, "len(fmtArgs) != 0") {
+				if containsS(atoms, `template == ""`) && containsS(atoms, "len(fmtArgs) > 0") {
 					// which callers pass a non-constant template?
 					fstyle := false
 					lg := c.Method(ZapPath, "SugaredLogger", "log")
